@@ -43,9 +43,10 @@ def run(ctx, shard):
             one_cooler(ctx, cid, rng, shard["sub"] * 10 + i)
 
 
-def to_int_encoding(path):
+def to_int_encoding(path, group="/"):
     """Rewrite bins/chrom as plain integers (as files from other tools / >enum-limit contig counts look)."""
-    with h5py.File(path, "r+") as f:
+    with h5py.File(path, "r+") as f0:
+        f = f0[group]
         ids = f["bins/chrom"][:].astype(np.int32)
         del f["bins/chrom"]
         ds = f["bins"].create_dataset("chrom", data=ids, dtype=np.int32)
